@@ -556,13 +556,24 @@ def _rawwrap(opname, fn, swap=False):
     def w(self, o):
         r = fn(self, o)
         c = _ctx()
+        if c is not None and getattr(c, 'fl_on', False) and type(r) is Sym and not r.is_const():
+            # standard model of floating point arithmetic: fl(x op y) = (x op y)(1 + delta),
+            # |delta| <= 2^-53 (no overflow / underflow); integer-sorted +,-,* are exact
+            exact = opname != '/' and self.is_int_sorted() and \
+                (o.is_int_sorted() if type(o) is Sym else isinstance(o, int))
+            if not exact:
+                r = _RAW_MUL(r, c.fl_delta())
+            return r
         if c is not None and getattr(c, 'raw_on', False) and type(r) is Sym:
             r = Sym(r.n, r.d)
             r.raw = c.raw_node(opname, o, self) if swap else c.raw_node(opname, self, o)
         return r
+    w.__wrapped__ = fn
     w.__name__ = fn.__name__
     return w
 
+
+_RAW_MUL = Sym.__mul__
 
 for _nm, _op, _sw in (('__add__', '+', False), ('__radd__', '+', True),
                       ('__sub__', '-', False), ('__rsub__', '-', True),
